@@ -92,6 +92,10 @@ def bitCount (w : Nat) (x : BitVec w) : BitVec 32 :=
 def findMSBU (w : Nat) (x : BitVec w) : BitVec 32 := BitVec.ofNat 32 (w - 1) - bitCount w (~~~ (smearU w x))
 /-- the same for a signed T (arithmetic `>>` in the ladder) -/
 def findMSBS (w : Nat) (x : BitVec w) : BitVec 32 := BitVec.ofNat 32 (w - 1) - bitCount w (~~~ (smearS w x))
+/-- public findMSB(vec<L,T>) for a signed T, func_integer.inl (with C05's fix_findMSB_signed, committed as bfe95ef):
+    `compute_findMSB_vec<…>::call(v ^ (v >> static_cast<T>(sizeof(T)*8 - 1)))` — the identity on v ≥ 0.
+    For an unsigned T the public function is `findMSBU`. -/
+def findMSBpubS (w : Nat) (x : BitVec w) : BitVec 32 := findMSBS w (x ^^^ x.sshiftRight (w - 1))
 
 /-! ## ext/scalar_integer.inl, ext/vector_integer.inl, gtc/round.inl — power-of-two family -/
 
@@ -132,7 +136,7 @@ def ceilPowerOfTwoS (w c : Nat) (x : BitVec w) : BitVec w :=
 def floorPowerOfTwoU (w c : Nat) (x : BitVec w) : BitVec w :=
   if isPowerOfTwoU w c x then x else tr w ((1 : BitVec c) <<< findMSBU w x)
 def floorPowerOfTwoS (w c : Nat) (x : BitVec w) : BitVec w :=
-  if isPowerOfTwoS w c x then x else tr w ((1 : BitVec c) <<< findMSBS w x)
+  if isPowerOfTwoS w c x then x else tr w ((1 : BitVec c) <<< findMSBpubS w x)
 
 /-- roundPowerOfTwo, round.inl:94-103 (patched l.102:
     `return static_cast<T>(next - value) < static_cast<T>(value - prev) ? next : prev;`) -/
@@ -143,7 +147,7 @@ def roundPowerOfTwoU (w c : Nat) (x : BitVec w) : BitVec w :=
   if (next - x).ult (x - prev) then next else prev
 def roundPowerOfTwoS (w c : Nat) (x : BitVec w) : BitVec w :=
   if isPowerOfTwoS w c x then x else
-  let prev : BitVec w := tr w ((1 : BitVec c) <<< findMSBS w x)
+  let prev : BitVec w := tr w ((1 : BitVec c) <<< findMSBpubS w x)
   let next : BitVec w := tr w (sx c prev <<< 1)
   if (next - x).slt (x - prev) then next else prev
 
